@@ -3,7 +3,12 @@ from drivers.labels import FreshList
 import random
 
 
+_ODD = [("t",), None, "", 0, (), 1.5, frozenset(), b"", -1, "x", 7, (0, 0), 2.5, "None", frozenset([1]), 99]
+
+
 def _label(kind, i):
+    if kind == "odd":        # any hashable labels: None, falsy values, bytes, frozensets
+        return _ODD[i] if i < len(_ODD) else ("odd", i)
     return {"str": "v%d" % i, "tuple": (i % 2, i), "big": 1000 + i}.get(kind, i)
 
 
@@ -108,4 +113,4 @@ def gen(rng, nmax=8):
     rng.shuffle(edges)
     order = list(range(n))
     rng.shuffle(order)
-    return {"n": n, "m": m, "edges": edges, "order": order, "labels": rng.choice(["int", "str", "tuple", "big"])}
+    return {"n": n, "m": m, "edges": edges, "order": order, "labels": rng.choice(["int", "str", "tuple", "big", "odd"])}
